@@ -204,7 +204,29 @@ def some(rng, must, pool, kmax=3):
     return vals
 
 
+def gen_same_day_ordinals(rng, must=None):
+    """byweekday naming the SAME day under several ordinals (first and third Monday, first and last
+    Friday, a plain day next to a numbered one), possibly mixed with other days"""
+    days = [must if must is not None else rng.randrange(7)]
+    if rng.random() < 0.4:
+        days.append(rng.randrange(7))
+    parts = []
+    for d in days:
+        ords = rng.sample([1, 2, 3, 4, -1, -2, None], rng.choice([2, 2, 3]))
+        for n in ords:
+            nm = rng.choice([WD[d], WD[d].lower(), WD[d].capitalize()])
+            if n is not None:
+                nm += rng.choice([f"({n:+d})", f"({n})"])
+            parts.append(nm)
+    if rng.random() < 0.3:
+        parts.append(WD[rng.randrange(7)] + rng.choice(["", "(+1)", "(-1)"]))
+    rng.shuffle(parts)
+    return L("str", rng.choice([",", ", ", " , "]).join(parts))
+
+
 def gen_weekday_str(rng, must, with_n):
+    if with_n and rng.random() < 0.35:
+        return gen_same_day_ordinals(rng, must)
     days = some(rng, must, list(range(7)), 3)
     parts = []
     for d in days:
@@ -632,6 +654,8 @@ def generate(rng, tier):
         cases.append(gen_malformed_recipe(rng))
     for _ in range(10 if nq else 300):
         cases.append(gen_nested_exclusion(rng))
+    for _ in range(40 if nq else 800):
+        cases.append(gen_ordinal_weekdays_case(rng))
     # single documented by-keyword with a plain UTC datetime start, every keyword, both modes
     for key in DOC_INT_KEYS:
         for _ in range(2 if nq else 30):
@@ -658,6 +682,40 @@ def gen_nested_exclusion(rng):
                            ["exclude", lit(dd(off + 7 * hole))]])
     kw = [["freq", L("str", "daily")], ["start_date", lit(d0)], ["until", lit(dd(16))], ["exclude", inner]]
     return {"kind": "recipe", "kw": kw, "mode": "for_each" if rng.random() < 0.5 else {"count": 12}}
+
+
+def gen_ordinal_weekdays_case(rng):
+    """monthly / yearly rules whose byweekday repeats a day name with different ordinals, at top level
+    or inside a nested include / exclude schedule; recipe (count, for_each) and direct (wiring) form"""
+    d0 = rand_day(rng)
+    freq = rng.choice(["monthly", "monthly", "yearly", "Monthly", "YEARLY"])
+    if rng.random() < 0.5:
+        start = lit_date(d0) if rng.random() < 0.5 else L("str", d0.isoformat())
+    else:
+        start = lit_dt(datetime(d0.year, d0.month, d0.day, rng.randint(0, 23), rng.randint(0, 59), 0))
+    fixed = rng.choice([None, None, "MO(+1), MO(+3)", "FR(+1),FR(-1)", "WE(+2), MO(-1), WE(-1)", "MO(+1), MO",
+                        "su(-1),SU(1),Su(+2)"])
+    wd = L("str", fixed) if fixed else gen_same_day_ordinals(rng)
+    rule = [["freq", L("str", freq)], ["start_date", start], ["byweekday", wd]]
+    if rng.random() < 0.25 and freq.lower() == "yearly":
+        rule.append(["bymonth", int_forms(rng, some(rng, rng.randint(1, 12), list(range(1, 13))), False)])
+    r = rng.random()
+    if r < 0.25:
+        return {"kind": "direct", "kw": rule, "n": 2}
+    if r < 0.6:
+        mode = {"count": rng.choice([4, 6, 9])} if rng.random() < 0.6 else "for_each"
+        if mode == "for_each":
+            rule.append(["count", L("int", rng.choice([5, 8, 12]))])
+        return {"kind": "recipe", "kw": rule, "mode": mode}
+    # nested: the ordinal rule is an include (its occurrences must all appear) or an exclude of a daily rule
+    inner = L("event", kw=rule + [["count", L("int", rng.choice([4, 6, 8]))]])
+    if rng.random() < 0.5:
+        outer = [["freq", L("str", "yearly")], ["start_date", start], ["include", inner]]
+        return {"kind": "recipe", "kw": outer, "mode": {"count": rng.choice([4, 6])}}
+    dstart = start if start["t"] != "str" else lit_date(d0)
+    outer = [["freq", L("str", "daily")], ["start_date", dstart], ["count", L("int", 70)],
+             ["exclude", inner if rng.random() < 0.6 else L("seq", [inner], tuple=True)]]
+    return {"kind": "recipe", "kw": outer, "mode": "for_each"}
 
 
 def gen_recipe_single(rng, key):
@@ -1622,6 +1680,19 @@ def _oracle_direct(case, obs):
         want = dflt if e is None else (enc_scalar(_plain(e)) if e["t"] in ("none", "bool", "int", "str") else ["other"])
         if rr.get(k) != want:
             return f"wiring: engine keyword {k}={rr.get(k)} but the recipe keyword {k} is {want}"
+    bw = kwget(case["kw"], "byweekday")
+    if bw is not None and bw["t"] == "str" and bw["v"]:
+        want = []
+        for part in bw["v"].split(","):
+            m = _WD_RE.match(part)
+            if not m or m.group(1).upper() not in WD:
+                want = None
+                break
+            n = int(m.group(2)) if m.group(2) else 0
+            want.append([WD.index(m.group(1).upper()), n if n else None])
+        if want is not None and rr.get("byweekday") != want:
+            return (f"wiring: byweekday {bw['v']!r} reached the engine as {rr.get('byweekday')} "
+                    f"(expected {want}: every listed day with its own ordinal, in order)")
     iv = kwget(case["kw"], "interval")
     if iv is not None and _ref_falsy(iv):
         return f"wiring: the rule was built with the falsy interval {iv} (the engine never advances with it)"
@@ -1729,6 +1800,8 @@ def directed_search(rng, disagreeing):
         out.append(gen_recipe_case(rng))
     for _ in range(60):
         out.append(gen_nested_exclusion(rng))
+    for _ in range(200):
+        out.append(gen_ordinal_weekdays_case(rng))
     for key in INT_KEYS + ["byweekday", "interval", "count", "cache", "until"]:
         for _ in range(25):
             out.append(gen_direct_single(rng, key))
